@@ -64,6 +64,12 @@ def mk_fields(rng, presence: int) -> dict:
     while sum(map(len, out.values())) > 1000:
         k = max(out, key=lambda x: len(out[x]))
         out[k] = out[k][:len(out[k]) // 2]
+    # a caller's dict has whatever insertion order the caller produced; the
+    # message is the concatenation in INDEX order all the same
+    if rng.random() < 0.6:
+        ks = list(out)
+        rng.shuffle(ks)
+        out = {k: out[k] for k in ks}
     return out
 
 
